@@ -9,114 +9,15 @@
    tests agree when inf_ behaves like +infinity on the ratios that are compared with it (inf_like). *)
 From Coq Require Import ZArith List Bool Arith Lia.
 From QE Require Import Base.Num Base.Pivot Gen.Kernels Gen.Kernels2.
+From QE Require Export Base.GenLemmas.
 Import ListNotations.
 
-(* ------------------------------------------------------------------ lists *)
-Definition zs (l : list nat) : list Z := map Z.of_nat l.
-Lemma zs_length l : length (zs l) = length l. Proof. apply map_length. Qed.
-Lemma zs_app a b : zs (a ++ b) = zs a ++ zs b. Proof. apply map_app. Qed.
-Lemma nth_zs l i : nth i (zs l) 0%Z = Z.of_nat (nth i l 0%nat).
-Proof. unfold zs. change 0%Z with (Z.of_nat 0). apply map_nth. Qed.
 
-Lemma upd_nth_length {A} : forall (l : list A) i v, length (upd_nth l i v) = length l.
-Proof. induction l as [|x l IH]; intros [|i] v; cbn; try reflexivity. rewrite IH. reflexivity. Qed.
-Lemma nth_upd_nth_eq {A} (d : A) : forall (l : list A) i v, (i < length l)%nat -> nth i (upd_nth l i v) d = v.
-Proof. induction l as [|x l IH]; intros [|i] v Hl; cbn in *; try lia; [reflexivity|]. apply IH. lia. Qed.
-Lemma nth_upd_nth_neq {A} (d : A) : forall (l : list A) i k v, k <> i -> nth k (upd_nth l i v) d = nth k l d.
-Proof.
-  induction l as [|x l IH]; intros [|i] [|k] v Hk; cbn; try reflexivity; try lia.
-  apply IH. lia.
-Qed.
-Lemma upd_nth_zs l p v : upd_nth (zs l) p (Z.of_nat v) = zs (upd_nth l p v).
-Proof. revert p. induction l as [|x l IH]; intros [|p]; cbn; try reflexivity. rewrite IH. reflexivity. Qed.
-Lemma upd_nth_app_l {A} : forall (pre : list A) c tl p, (p <= length pre)%nat ->
-  upd_nth (pre ++ c :: tl) p c = upd_nth (pre ++ [c]) p c ++ tl.
-Proof.
-  induction pre as [|x pre IH]; intros c tl [|p] Hp; cbn in *; try reflexivity; try lia.
-  - rewrite <- app_assoc. reflexivity.
-  - rewrite IH by lia. reflexivity.
-Qed.
-Lemma upd_nth_mid {A} (pre : list A) x v rest : upd_nth (pre ++ x :: rest) (length pre) v = pre ++ v :: rest.
-Proof. induction pre as [|p pre IH]; cbn; [reflexivity|]. rewrite IH. reflexivity. Qed.
-Lemma firstn_S_upd_nth {A} : forall (l : list A) p v, (p < length l)%nat ->
-  firstn (S p) (upd_nth l p v) = firstn p l ++ [v].
-Proof.
-  induction l as [|x l IH]; intros [|p] v Hp; cbn in *; try lia; [reflexivity|].
-  f_equal. apply IH. lia.
-Qed.
-Lemma firstn_app_le {A} (a b : list A) n : (n <= length a)%nat -> firstn n (a ++ b) = firstn n a.
-Proof. intro Hn. rewrite firstn_app. replace (n - length a)%nat with 0%nat by lia. cbn. apply app_nil_r. Qed.
-
-Lemma inb_nat {A} (l : list A) i : (i < length l)%nat -> inb (Z.of_nat i) l = true.
-Proof. intro Hl. unfold inb. apply andb_true_intro. split; [apply Z.leb_le|apply Z.ltb_lt]; lia. Qed.
-
-(* ------------------------------------------------------------------ 2-d access *)
 Section Tie.
 Context {T : Type} {NT : Num T}.
 Notation mat := (list (list T)).
 
-Definition rect (nr nc : nat) (M : mat) : Prop := length M = nr /\ forall i, (i < nr)%nat -> length (nth i M []) = nc.
-
-Lemma widx_nat i n : widx (Z.of_nat i) n = Z.of_nat i.
-Proof. unfold widx. destruct (Z.of_nat i <? 0)%Z eqn:E; [apply Z.ltb_lt in E; lia|reflexivity]. Qed.
-Lemma widx_m1 n : (0 < n)%nat -> widx (-1) n = Z.of_nat (n - 1).
-Proof. intro Hn. unfold widx. replace (-1 <? 0)%Z with true by reflexivity. lia. Qed.
-Lemma row2_nat (M : mat) i : row2 M (Z.of_nat i) = nth i M [].
-Proof. unfold row2. rewrite widx_nat, Nat2Z.id. reflexivity. Qed.
-Lemma get2_nat (M : mat) i j : get2 M (Z.of_nat i) (Z.of_nat j) = get M i j.
-Proof. unfold get2, get. rewrite row2_nat, widx_nat, Nat2Z.id. reflexivity. Qed.
-Lemma get2_m1 (M : mat) i : (0 < length (nth i M []))%nat ->
-  get2 M (Z.of_nat i) (-1) = get M i (length (nth i M []) - 1).
-Proof. intro Hl. unfold get2, get. rewrite row2_nat, widx_m1, Nat2Z.id by exact Hl. reflexivity. Qed.
-Lemma set2_nat (M : mat) i j v :
-  set2 M (Z.of_nat i) (Z.of_nat j) v = upd_nth M i (upd_nth (nth i M []) j v).
-Proof. unfold set2. rewrite row2_nat, !widx_nat, !Nat2Z.id. reflexivity. Qed.
-Lemma inb2_nat (M : mat) i j : (i < length M)%nat -> (j < length (nth i M []))%nat ->
-  inb2 (Z.of_nat i) (Z.of_nat j) M = true.
-Proof. intros Hi Hj. unfold inb2. rewrite row2_nat, !widx_nat, !inb_nat by assumption. reflexivity. Qed.
-Lemma inb2_m1 (M : mat) i : (i < length M)%nat -> (0 < length (nth i M []))%nat ->
-  inb2 (Z.of_nat i) (-1) M = true.
-Proof.
-  intros Hi Hj. unfold inb2. rewrite row2_nat, widx_nat, widx_m1, !inb_nat by (assumption || lia). reflexivity.
-Qed.
-
-Lemma rect_upd_row nr nc (M : mat) i row : rect nr nc M -> length row = nc -> rect nr nc (upd_nth M i row).
-Proof.
-  intros [Hl Hr] Hrow. split; [rewrite upd_nth_length; exact Hl|].
-  intros k Hk. destruct (Nat.eq_dec k i) as [->|Hne].
-  - rewrite nth_upd_nth_eq by lia. exact Hrow.
-  - rewrite nth_upd_nth_neq by exact Hne. apply Hr, Hk.
-Qed.
-
 (* ------------------------------------------------------------------ _pivoting *)
-(* for j = j0 .. j0+f-1: row[j] := g j row[j] *)
-Fixpoint row_loop (g : nat -> T -> T) (f j : nat) (row : list T) : list T :=
-  match f with O => row | S f' => row_loop g f' (S j) (upd_nth row j (g j (nth j row nzero))) end.
-
-Lemma row_loop_spec g : forall rest pre, row_loop g (length rest) (length pre) (pre ++ rest) = pre ++ mapi_from g (length pre) rest.
-Proof.
-  induction rest as [|x rest IH]; intros pre; cbn [length row_loop mapi_from]; [reflexivity|].
-  rewrite app_nth2, Nat.sub_diag by lia. cbn [nth]. rewrite upd_nth_mid.
-  replace (pre ++ g (length pre) x :: rest) with ((pre ++ [g (length pre) x]) ++ rest) by (rewrite <- app_assoc; reflexivity).
-  replace (S (length pre)) with (length (pre ++ [g (length pre) x])) by (rewrite app_length; cbn; lia).
-  rewrite IH, <- app_assoc. reflexivity.
-Qed.
-Lemma row_loop_full g row : row_loop g (length row) 0 row = mapi g row.
-Proof. apply (row_loop_spec g row []). Qed.
-Lemma row_loop_length g : forall f j row, length (row_loop g f j row) = length row.
-Proof. induction f as [|f IH]; intros j row; cbn [row_loop]; [reflexivity|]. rewrite IH. apply upd_nth_length. Qed.
-
-Lemma mapi_from_const {A B} (h : A -> B) : forall l s, mapi_from (fun _ x => h x) s l = map h l.
-Proof. induction l as [|x l IH]; intros s; cbn; [reflexivity|]. rewrite IH. reflexivity. Qed.
-Lemma mapi_from_map2 (h : T -> T -> T) : forall (row prow : list T) s pre, length pre = s -> length prow = length row ->
-  mapi_from (fun j x => h x (nth j (pre ++ prow) nzero)) s row = map2 h row prow.
-Proof.
-  induction row as [|x row IH]; intros [|y prow] s pre Hs Hl; cbn in *; try reflexivity; try discriminate.
-  rewrite app_nth2, <- Hs, Nat.sub_diag by lia. cbn [nth]. f_equal.
-  replace (pre ++ y :: prow) with ((pre ++ [y]) ++ prow) by (rewrite <- app_assoc; reflexivity).
-  apply IH; [rewrite app_length; cbn; lia|lia].
-Qed.
-
 Lemma pivoting_loop0_tie r p : forall f j (M : mat) ok,
   (r < length M)%nat -> (j + f <= length (nth r M []))%nat ->
   gen_pivoting_loop0 f (Z.of_nat j) M ok (Z.of_nat r) p =
@@ -133,13 +34,6 @@ Proof.
     + rewrite upd_nth_length. exact Hr.
     + rewrite nth_upd_nth_eq by exact Hr. rewrite upd_nth_length. lia.
 Qed.
-
-Lemma upd_nth_same (M : mat) : forall r, upd_nth M r (nth r M []) = M.
-Proof. induction M as [|x M IHM]; intros [|r]; cbn; try reflexivity. f_equal. apply IHM. Qed.
-Lemma upd_nth_twice {A} : forall (l : list A) i a b, upd_nth (upd_nth l i a) i b = upd_nth l i b.
-Proof. induction l as [|x l IH]; intros [|i] a b; cbn; try reflexivity. f_equal. apply IH. Qed.
-Lemma length_map2 {A B C} (h : A -> B -> C) : forall a b, length (map2 h a b) = Nat.min (length a) (length b).
-Proof. induction a as [|x a IH]; intros [|y b]; cbn; try reflexivity. rewrite IH. reflexivity. Qed.
 
 Lemma pivoting_loop2_tie r i m : forall f j (M : mat) ok,
   i <> r -> (i < length M)%nat -> (r < length M)%nat ->
@@ -454,9 +348,6 @@ Proof.
     rewrite IH by lia. rewrite Nat.add_succ_r. reflexivity.
 Qed.
 
-Lemma inb_0 {A} (l : list A) : (0 < length l)%nat -> inb 0 l = true.
-Proof. apply (inb_nat l 0). Qed.
-
 Section Lex.
 Variables (M : mat) (nr nc pv : nat) (inf_ tolp tolr : T).
 Hypothesis HM : rect nr nc M.
@@ -700,49 +591,3 @@ Proof.
 Qed.
 End ModelFacts.
 
-Section SliceStores.
-Context {T : Type} {NT : Num T}.
-(* ------------------------------------------------------------------ slice stores of Gen/Kernels2.v *)
-Lemma mapz_from_length {A} (f : Z -> A -> A) : forall l s, length (mapz_from f s l) = length l.
-Proof. induction l as [|x l IH]; intros s; cbn; [reflexivity|]. rewrite IH. reflexivity. Qed.
-Lemma nth_mapz_from {A} (f : Z -> A -> A) (d : A) : forall l s k, (k < length l)%nat ->
-  nth k (mapz_from f s l) d = f (s + Z.of_nat k)%Z (nth k l d).
-Proof.
-  induction l as [|x l IH]; intros s [|k] Hk; cbn [length mapz_from nth] in *; try lia.
-  - rewrite Z.add_0_r. reflexivity.
-  - rewrite IH by lia. f_equal. lia.
-Qed.
-Lemma bnd_val_0 n : bnd_val (Bnd 0) n = 0%Z.
-Proof. unfold bnd_val, widx. cbn. lia. Qed.
-Lemma bnd_val_nat k n : (k <= n)%nat -> bnd_val (Bnd (Z.of_nat k)) n = Z.of_nat k.
-Proof. intro H. unfold bnd_val. rewrite widx_nat. lia. Qed.
-
-Lemma nth_repeat_lt {A} (v d : A) : forall n k, (k < n)%nat -> nth k (repeat v n) d = v.
-Proof. induction n as [|n IH]; intros [|k] Hk; cbn; try lia; [reflexivity|]. apply IH. lia. Qed.
-Lemma fill1_all (r : list T) v : fill1 r (Sl (Bnd 0) BndEnd) v = repeat v (length r).
-Proof.
-  apply (nth_ext _ _ nzero nzero); [unfold fill1; rewrite mapz_from_length, repeat_length; reflexivity|].
-  intros k Hk. unfold fill1 in *. rewrite mapz_from_length in Hk. rewrite nth_mapz_from by exact Hk.
-  cbn [sel_lo sel_hi]. rewrite bnd_val_0. cbn [bnd_val].
-  replace (0 <=? 0 + Z.of_nat k)%Z with true by (symmetry; apply Z.leb_le; lia).
-  replace (0 + Z.of_nat k <? Z.of_nat (length r))%Z with true by (symmetry; apply Z.ltb_lt; lia).
-  cbn [andb]. symmetry. apply nth_repeat_lt, Hk.
-Qed.
-
-Lemma mapi_from_length {A B} (f : nat -> A -> B) : forall l s, length (mapi_from f s l) = length l.
-Proof. induction l as [|x l IH]; intros s; cbn; [reflexivity|]. rewrite IH. reflexivity. Qed.
-Lemma mapi_from_nth {A B} (f : nat -> A -> B) (d : A) (d' : B) : forall l s i, (i < length l)%nat ->
-  nth i (mapi_from f s l) d' = f (s + i)%nat (nth i l d).
-Proof.
-  induction l as [|x l IH]; intros s [|i] Hi; cbn [length mapi_from nth] in *; try lia.
-  - rewrite Nat.add_0_r. reflexivity.
-  - rewrite IH by lia. f_equal. lia.
-Qed.
-Lemma tabv_length {A} (g : nat -> A) m : length (tabv m g) = m.
-Proof. unfold tabv. rewrite map_length, seq_length. reflexivity. Qed.
-Lemma nth_tabv_lt {A} (g : nat -> A) m k d : (k < m)%nat -> nth k (tabv m g) d = g k.
-Proof.
-  intro Hk. unfold tabv. rewrite (nth_indep _ d (g 0%nat)) by (rewrite map_length, seq_length; exact Hk).
-  rewrite map_nth, seq_nth by exact Hk. reflexivity.
-Qed.
-End SliceStores.
